@@ -259,7 +259,21 @@ def build(env, spec):
             M = [[e, t, 0], [t, a, x0 * xs], [0, xs * x0, 1]]
         else:
             raise ValueError(lk)
-        if spec.get('lmi_objects', False):
+        if spec.get('lmi_buffer', False):
+            # the user fills ONE work array and declares it again for every LMI (same shape): each declaration must keep
+            # the entries it was declared with
+            import numpy as _np
+            n_ = len(M)
+            buf = m.__dict__.setdefault('_lmi_buffer', _np.empty((n_, n_), dtype=object))
+            if buf.shape != (n_, n_):
+                raise ValueError("lmi_buffer: LMIs of one model must have the same size")
+            for i_ in range(n_):
+                for j_ in range(n_):
+                    buf[i_, j_] = M[i_][j_]
+            pm = pep.add_psd_matrix(buf)
+            m.lmis.append(pm)
+            m.__dict__.setdefault('lmi_entries', []).append((pm, [list(r_) for r_ in M]))
+        elif spec.get('lmi_objects', False):
             pm = PSDMatrix(M)
             pending.append(pm)
         else:
